@@ -77,6 +77,8 @@ def typed_network_evaluator(prog, extra_opaque=()):
     if isinstance(cls, ast.ClassDef):
         mem = prog.find_member(net, cls, 'is_zero_node')
         if mem and isinstance(mem[1], ast.FunctionDef): ev.atom_methods[('network', 'is_zero_node')] = (mem[0], mem[1])
+        mem = prog.find_member(net, cls, 'branch_ids')
+        if mem and isinstance(mem[1], ast.FunctionDef): ev.atom_methods[('network', 'branch_ids')] = (mem[0], mem[1])
     lm = prog.mod(LM)
     for nm, d in lm.defs.items():
         if isinstance(d, ast.FunctionDef) and d.returns is not None and 'LabelMapping' in ast.unparse(d.returns) and nm != 'filter' and not nm.startswith('_'):
